@@ -98,11 +98,7 @@ impl<'t, D: Decl> ShapeVisitor<D> for TokVisitor<'t> {
 
 pub fn diff_tokens<D: Decl>(shape: ShapeId, core: bool, toks: &[Tok], byz: Byz, fail_at: Option<usize>) -> TokResult {
     let v = TokVisitor { toks, target: D::NAME, byz, fail_at };
-    if core {
-        shapes::dispatch::<D, _>(shape, v)
-    } else {
-        shapes::dispatch_basic::<D, _>(shape, v)
-    }
+    { let _ = core; <D::Shapes as shapes::ShapeSet>::dispatch::<D, _>(shape, v) }
 }
 
 struct TokBuild<'a, D: Decl> {
@@ -140,9 +136,5 @@ impl<'a, D: Decl> ShapeVisitor<D> for TokBuild<'a, D> {
 
 pub fn build_tokens<D: Decl>(shape: ShapeId, core: bool, aux: &Aux, raws: Vec<D::TwinInner>, via_t: bool) -> Result<Vec<Tok>, String> {
     let v = TokBuild::<D> { aux, raws, via_t };
-    if core {
-        shapes::dispatch::<D, _>(shape, v)
-    } else {
-        shapes::dispatch_basic::<D, _>(shape, v)
-    }
+    { let _ = core; <D::Shapes as shapes::ShapeSet>::dispatch::<D, _>(shape, v) }
 }
